@@ -462,7 +462,13 @@ fn gen_inst(rng: &mut Prng) -> Inst {
             ops.insert(0, Op::TestTimer);
             n_clock = 1900;
         }
-        return Inst { kind: Kind::Jitter, seed: None, clock: Some(gen_plain_clock(rng, n_clock)), rounds, ops };
+        let mut clock = gen_plain_clock(rng, n_clock);
+        if rng.chance(1, 6) {
+            // this instance's own timer goes through a long stall / constant-rate stretch
+            let (c, _) = crate::clockgen::gen_clock(rng, &crate::clockgen::ClockCfg { n: n_clock, faults: vec![crate::clockgen::CF::Stall], rate_per_1000: 6, max_stretch: 4, long_stuck: true });
+            clock = c;
+        }
+        return Inst { kind: Kind::Jitter, seed: None, clock: Some(clock), rounds, ops };
     }
     let kind = pick_det_kind(rng);
     // seeding routes that go through shared-looking helpers are over-weighted
